@@ -5,6 +5,7 @@
 package e3
 
 import (
+	"bufio"
 	"bytes"
 	"context"
 	"crypto/tls"
@@ -445,6 +446,14 @@ func RunCell(c *Cell) (res *Result) {
 	var fakeRunners []*fakeAttached
 	var testRC *plugin.ReattachConfig
 	var testCancel context.CancelFunc
+	spawnedPid := 0 // an out-of-band plugin process of this cell (spawnsamepid): never left behind
+	defer func() {
+		if spawnedPid > 1 {
+			if b, err := os.ReadFile(fmt.Sprintf("/proc/%d/cmdline", spawnedPid)); err == nil && strings.Contains(string(b), "vplugin") {
+				syscall.Kill(spawnedPid, syscall.SIGKILL)
+			}
+		}
+	}()
 	var closeCh chan struct{}
 	var clients []*plugin.Client
 	var stores []kv.Store
@@ -808,6 +817,63 @@ func RunCell(c *Cell) (res *Result) {
 			clients = append(clients, plugin.NewClient(cfg))
 			stores, protos = append(stores, nil), append(protos, nil)
 			record(op, t0, nil, "")
+		case "spawnsamepid":
+			// Another plugin process, started outside this host (by an earlier incarnation of the application, say), that the
+			// kernel gave the pid the previous plugin of this cell had (pids are recycled); the host reattaches to it from the
+			// reattach information that was written down for it: protocol, address, pid.
+			pid := res.PluginPid
+			if pid <= 1 || syscall.Kill(pid, 0) == nil {
+				record(op, t0, nil, "skipped: the previous plugin's pid is unknown or still in use")
+				break
+			}
+			helper := filepath.Join(filepath.Dir(c.VPlugin), "pidspawn")
+			if _, err := os.Stat(helper); err != nil {
+				helper = filepath.Join(filepath.Dir(filepath.Dir(c.VPlugin)), "pidspawn")
+			}
+			if _, err := os.Stat(helper); err != nil {
+				record(op, t0, nil, "skipped: no pidspawn helper was built")
+				break
+			}
+			sp := exec.Command(helper, strconv.Itoa(pid), c.VPlugin)
+			pc, _ := json.Marshal(c.Plugin)
+			sp.Env = []string{"VP_CONF=" + string(pc), "TMPDIR=" + pluginDir, "PATH=" + os.Getenv("PATH"), c.Plugin.CookieKey + "=" + c.Plugin.CookieValue, "PLUGIN_PROTOCOL_VERSIONS=1"}
+			pr, pw, _ := os.Pipe()
+			sp.Stdout = pw
+			// (descriptors handed over are plain files: the program started lives on and would keep a copying pipe open)
+			ef, _ := os.Create(filepath.Join(c.Dir, "pidspawn-stderr"))
+			sp.Stderr = ef
+			err := sp.Run()
+			pw.Close()
+			ef.Close()
+			if err != nil {
+				pr.Close()
+				msg, _ := os.ReadFile(filepath.Join(c.Dir, "pidspawn-stderr"))
+				record(op, t0, nil, "skipped: "+strings.TrimSpace(string(msg))+" "+err.Error())
+				break
+			}
+			spawnedPid = pid
+			lineCh := make(chan string, 1)
+			go func() { l, _ := bufio.NewReader(pr).ReadString('\n'); lineCh <- l }()
+			var line string
+			select {
+			case line = <-lineCh:
+			case <-time.After(15 * time.Second):
+			}
+			f := strings.Split(strings.TrimSpace(line), "|")
+			if len(f) < 5 || f[2] != "unix" {
+				record(op, t0, fmt.Errorf("the out-of-band plugin printed %q", line), "")
+				break
+			}
+			ver, _ := strconv.Atoi(f[1])
+			cfg := mkConfig()
+			cfg.Cmd = nil
+			cfg.AutoMTLS = false
+			cfg.Reattach = &plugin.ReattachConfig{Protocol: plugin.Protocol(f[4]), ProtocolVersion: ver, Addr: &net.UnixAddr{Name: f[3], Net: "unix"}, Pid: pid}
+			clients = append(clients, plugin.NewClient(cfg))
+			stores, protos = append(stores, nil), append(protos, nil)
+			record(op, t0, nil, "spawned")
+		case "exited?": // what the current client says right now
+			record(op, t0, nil, strconv.FormatBool(clients[cur()].Exited()))
 		case "reattachlive": // like reattach, but the recorded pid belongs to a live bystander process
 			i := cur()
 			if arg != "" {
